@@ -45,6 +45,46 @@ class Script:
         self.log.append(v - a)
         return v
 
+    # the rest of the `random` interface: an implementation is free to draw differently (another number of draws, other functions); the
+    # scripted values still steer it deterministically, and the property clauses (stated on histories and observations) do not depend on it
+    def randrange(self, start, stop=None, step=1):
+        if stop is None:
+            start, stop = 0, start
+        n = max(1, (stop - start + step - 1) // step)
+        i = self._next() % n
+        self.log.append(i)
+        return start + i * step
+
+    def random(self):
+        return (self._next() % 1000) / 1000.0
+
+    def getrandbits(self, k):
+        return self._next() % (1 << k)
+
+    def shuffle(self, x):
+        r = self._next() % max(1, len(x))
+        x[:] = x[r:] + x[:r]
+
+    def sample(self, population, k):
+        pop = list(population)
+        r = self._next() % max(1, len(pop))
+        return (pop[r:] + pop[:r])[:k]
+
+    def choices(self, population, weights=None, k=1):
+        pop = list(population)
+        return [pop[self._next() % len(pop)] for _ in range(k)]
+
+    def uniform(self, a, b):
+        return a + (b - a) * self.random()
+
+    def seed(self, *a, **kw):
+        return None
+
+    def __getattr__(self, name):      # anything else: the real module
+        import random as _r
+
+        return getattr(_r, name)
+
 
 def mc_module(p):
     return (
@@ -178,25 +218,44 @@ class Ctx:
         g.expansion_rate = f.expansion_rate
         return g
 
+    def out_step(self, out, o, failed):
+        """the history oracle (outstanding additions per fingerprint), advanced from the operation and from whether the CODE's call returned
+        normally - the property speaks about adds that returned normally; an implementation that resolves its random choices differently may
+        reject an add the model's resolution accepts, or the reverse"""
+        if failed or o[0] not in ("add", "rem"):
+            return out
+        out = dict(out)
+        fp = self.fpof[o[1]]
+        if o[0] == "add":
+            out[fp] = out.get(fp, 0) + 1 if self.counting else 1
+        else:
+            out[fp] = max(0, out.get(fp, 0) - 1) if self.counting else 0
+        return out
+
     def source(self, c, hist):
         key = repr((c, hist))
         got = self.cache.get(key)
         if got is not None:
-            return copy.deepcopy(got)
+            f, self.cur_out = copy.deepcopy(got)
+            return f
         f = self.make(c)
+        out = {}
         for o, ch in hist:
+            failed = False
             try:
                 if o[0] == "rt":
                     f = self.reload(f, c, o[1])
                 else:
                     self.apply(f, o, ch)
             except self.Full:
-                pass
+                failed = True
             except Exception:
                 return None
+            out = self.out_step(out, o, failed)
         if len(self.cache) > 5000:
             self.cache.clear()
-        self.cache[key] = copy.deepcopy(f)
+        self.cache[key] = copy.deepcopy((f, out))
+        self.cur_out = out
         return f
 
     def table(self, f):
@@ -277,7 +336,10 @@ class Ctx:
                     t.check(not gone, "C03", "C03.kept", ENGINE, lambda: rp2(missing=gone, note="add returned normally"), sig)
                 t.add_drift(ENGINE, {"cfg": c, "history": hist, "op": o, "choices": ch, "raised": None, "expected_err": True})
                 return
-            out = fmap(exp["out"])
+            out = self.out_step(self.cur_out, o, False)
+            out = {fp: out.get(fp, 0) for fp in set(fpof.values())}
+            if out != {fp: v for fp, v in fmap(exp["out"]).items() if fp in out}:      # the code accepted / rejected some add of the history differently
+                t.add_drift(ENGINE, {"cfg": c, "history": hist, "op": o, "choices": ch, "outstanding_by_code": out, "outstanding_by_model": exp["out"]})
             missing = [k for k in self.keys if out[fpof[k]] > 0 and not after["check"][k]]
             t.check(not missing, "C03", "C03.kept", ENGINE, lambda: rp2(missing=missing), sig)
             missing_in = [k for k in self.keys if out[fpof[k]] > 0 and not after["in"][k]]
